@@ -116,6 +116,9 @@ func NewAccountingRequestFromBytes(data []byte) (*AcctRequest, error) {
 // Validate all fields on this type
 func (a *AcctRequest) Validate() error {
 	// validate
+	if err := fitsUint8(a.User.Len(), a.Port.Len(), a.RemAddr.Len(), len(a.Args)); err != nil {
+		return err
+	}
 	for _, t := range []Field{a.Method, a.PrivLvl, a.Type, a.Service, a.User, a.Port, a.RemAddr, a.Flags} {
 		if err := t.Validate(nil); err != nil {
 			return err
@@ -286,6 +289,9 @@ func NewAccountingReplyFromBytes(data []byte) (*AcctReply, error) {
 // Validate all fields on this type
 func (a *AcctReply) Validate() error {
 	// validate
+	if err := fitsUint16(a.ServerMsg.Len(), a.Data.Len()); err != nil {
+		return err
+	}
 	for _, t := range []Field{a.Status, a.ServerMsg, a.Data} {
 		if err := t.Validate(nil); err != nil {
 			return err
